@@ -690,41 +690,40 @@ static void entropy_run(const Plan *p, RunResult *r)
 		int pair_mode = (int)(((uint64_t)p->ent_c ^ (uint64_t)p->ent_s) % 3);      /* 0 both streams change, 1 only the server's, 2 only the client's */
 		r->nontrivial = 1;
 		r->nontrivial_id = r->fault_id = hash_bytes(0x91a, (int64_t[]){ p->proto, p->mutual, p->ent_c, p->ent_s }, 32);
-		for (int run = 0; run < 3; run++) {
+		static uint8_t g_hr[5][2][32]; static int g_hr_ok[5][2];
+		for (int run = 0; run < 6; run++) {
 			q = *p;
 			q.efail_node = -1; q.eburst_at = -1;
 			/* which side gets another stream in the third run: both, only the server, only the client (a value
 			 * that one side merely copies from its peer changes when both change, and stays when only that side does) */
-			if (run == 2) {
-				if (pair_mode != 2) q.ent_s = p->ent_s ^ 0x3c3c3c3c;
-				if (pair_mode != 1) q.ent_c = p->ent_c ^ 0x5a5a5a5a;
+			if (run >= 2) {
+				if (pair_mode != 2) q.ent_s = p->ent_s ^ (0x3c3c3c3c * (int64_t)(run - 1));
+				if (pair_mode != 1) q.ent_c = p->ent_c ^ (0x5a5a5a5a * (int64_t)(run - 1));
 			}
 			conn_run(&q, creds_get((int)q.depth, q.proto == P_TLCP), &o, NULL, NULL);
 			if (o.hs_ret[0] != 1 || o.hs_ret[1] != 1) { r->twin_failed = 1; return; }
 			if (run == 0) {
-				/* provenance: the Hello randoms on the wire are bytes this endpoint drew from its entropy stream */
-				static uint8_t drawn[160 * 48];
-				const uint8_t *hr[2] = { NULL, NULL };
-				for (int d = 0; d < 2; d++) {
-					Pipe *pp = &g_conns[0].pipe[d];
-					Node *n = &g_sim.nodes[d == DIR_C2S ? 0 : 1];
-					size_t dl = 0, ro = p->proto == P_TLS13 ? 11 : 15, rl = p->proto == P_TLS13 ? 32 : 28;
-					for (int i = 0; i < n->ndrawbytes; i++) { memcpy(drawn + dl, n->drawbytes[i], n->drawbytes_len[i]); dl += n->drawbytes_len[i]; }
-					if (pp->sent_len < 44 || pp->sent[0] != TLS_record_handshake) continue;
-					hr[d] = pp->sent + 11;
-					if (!memmem(drawn, dl, pp->sent + ro, rl)) {
-						rr_violation(r, "x", "proto=%s: the %s random on the wire is not a run of bytes that endpoint drew from its entropy stream (%d draws, %zu bytes)",
-							g_proto_names[p->proto], d ? "ServerHello" : "ClientHello", n->ndrawbytes, dl);
-						snprintf(r->vclass, sizeof(r->vclass), "entropy_provenance:hello_random:%s:%s", g_proto_names[p->proto], d ? "server" : "client");
-						return;
-					}
-				}
-				if (hr[0] && hr[1] && !memcmp(hr[0], hr[1], 32)) {
+				/* two independent streams: the two Hello randoms of one connection differ */
+				const Pipe *a = &g_conns[0].pipe[0], *b = &g_conns[0].pipe[1];
+				if (a->sent_len > 43 && b->sent_len > 43 && a->sent[0] == TLS_record_handshake && b->sent[0] == TLS_record_handshake
+				    && !memcmp(a->sent + 11, b->sent + 11, 32)) {
 					rr_violation(r, "x", "proto=%s: ServerHello.random equals ClientHello.random", g_proto_names[p->proto]);
-					snprintf(r->vclass, sizeof(r->vclass), "entropy_provenance:hello_random:%s:server", g_proto_names[p->proto]);
+					snprintf(r->vclass, sizeof(r->vclass), "entropy_indep:hello_random:%s:server", g_proto_names[p->proto]);
 					return;
 				}
 			}
+			/* every byte of a Hello random follows the stream: over five different streams of that side no byte
+			 * position keeps one value (chance 2^-32 per position for an honest source).  Stated on the wire only,
+			 * so an implementation that whitens its entropy (a DRBG) passes just the same. */
+			if (run != 1) {
+				int k = run == 0 ? 0 : run - 1;
+				for (int d = 0; d < 2; d++) {
+					const Pipe *pp = &g_conns[0].pipe[d];
+					g_hr_ok[k][d] = pp->sent_len > 43 && pp->sent[0] == TLS_record_handshake;
+					if (g_hr_ok[k][d]) memcpy(g_hr[k][d], pp->sent + 11, 32);
+				}
+			}
+			if (run > 2) continue;
 			for (int d = 0; d < 2; d++) {
 				Pipe *pp = &g_conns[0].pipe[d];
 				h[run] = hash_bytes(h[run], pp->sent, pp->sent_len);
@@ -734,6 +733,23 @@ static void entropy_run(const Plan *p, RunResult *r)
 					memcpy(wire[slot][d], pp->sent, wlen[slot][d]);
 					nrecs[slot][d] = o.nrecs[d];
 					memcpy(recs[slot][d], o.recs[d], sizeof(RecInfo) * (size_t)o.nrecs[d]);
+				}
+			}
+		}
+		for (int d = 0; d < 2; d++) {
+			if ((pair_mode == 1 && d == DIR_C2S) || (pair_mode == 2 && d == DIR_S2C)) continue;
+			size_t r0 = p->proto == P_TLS13 ? 0 : 4;      /* TLCP / TLS 1.2: the first four bytes are the clock */
+			int all = 1;
+			for (int k = 0; k < 5; k++) all &= g_hr_ok[k][d];
+			if (!all) continue;
+			for (size_t b = r0; b < 32; b++) {
+				int same = 1;
+				for (int k = 1; k < 5; k++) same &= g_hr[k][d][b] == g_hr[0][d][b];
+				if (same) {
+					rr_violation(r, "x", "proto=%s: byte %zu of the %s random has the same value under five different entropy streams of that endpoint",
+						g_proto_names[p->proto], b, d ? "ServerHello" : "ClientHello");
+					snprintf(r->vclass, sizeof(r->vclass), "entropy_indep:hello_random_byte:%s:%s", g_proto_names[p->proto], d ? "server" : "client");
+					return;
 				}
 			}
 		}
